@@ -286,7 +286,9 @@ func deadlockedInClose() bool {
 	buf := make([]byte, 1<<22)
 	n := runtime.Stack(buf, true)
 	for _, g := range strings.Split(string(buf[:n]), "\n\n") {
-		if strings.Contains(g, "sync.(*Mutex).Lock") && strings.Contains(g, ").Close(") &&
+		// the lock is requested by the close-event handler that Close() itself called while holding it
+		if strings.Contains(g, "sync.(*Mutex).Lock") &&
+			(strings.Contains(g, ".onConnectionEvent") || strings.Contains(g, ".removeFromPool")) &&
 			(strings.Contains(g, "connPool).Close") || strings.Contains(g, "poolPingPong).Close")) {
 			return true
 		}
@@ -408,7 +410,7 @@ func (w *world) apply(o op, e vh.Ev) (feasible bool) {
 		return true
 	case "poolclose":
 		e["res"] = "ok"
-		if w.b.nDead >= 3 {
+		if w.b.nDead >= 2 {
 			e["res"], e["assumed"] = "deadlock", true
 			return true
 		}
@@ -416,12 +418,18 @@ func (w *world) apply(o op, e vh.Ev) (feasible bool) {
 		go func() { w.pool.Close(); close(done) }()
 		select {
 		case <-done:
-		case <-time.After(5 * time.Second):
-			if deadlockedInClose() {
-				e["res"] = "deadlock"
-				w.b.nDead++
-			} else if !waitCh(done) {
-				e["res"] = "stuck"
+		case <-time.After(300 * time.Millisecond):
+			// not a deadline verdict: the goroutine dump must show Close() waiting for its own lock, twice
+			first := deadlockedInClose()
+			select {
+			case <-done:
+			case <-time.After(700 * time.Millisecond):
+				if first && deadlockedInClose() {
+					e["res"] = "deadlock"
+					w.b.nDead++
+				} else if !waitCh(done) {
+					e["res"] = "stuck"
+				}
 			}
 		}
 		return true
@@ -433,8 +441,22 @@ func (w *world) apply(o op, e vh.Ev) (feasible bool) {
 	return false
 }
 
-func (w *world) end() {
+// end closes everything at the upstream and waits until the pool has digested it, so that no late
+// close event of this case moves the (shared) gauges while the next case runs.
+func (w *world) end(dead bool) {
 	w.b.up.CloseAll()
+	if dead {
+		return
+	}
+	for _, c := range w.reg.Conns() {
+		c.WaitClosed(opDeadline)
+	}
+	w.mu.Lock()
+	ls := append([]*lease{}, w.all...)
+	w.mu.Unlock()
+	for _, l := range ls {
+		waitCh(l.lst.destroyed)
+	}
 }
 
 func runHist(b *binding, casesPath string, tr *vh.Trace, shard, shards int) {
@@ -450,12 +472,13 @@ func runHist(b *binding, casesPath string, tr *vh.Trace, shard, shards int) {
 		}
 		w := newWorld(b, c.Mc, c.Mr)
 		tr.Emit(vh.Ev{"ev": "pool", "proto": b.name, "mc": c.Mc, "mr": c.Mr, "case": n})
+		dead := false
 		for _, o := range c.Ops {
 			e := vh.Ev{"ev": "op"}
 			if !w.apply(o, e) {
 				break
 			}
-			dead := e["res"] == "deadlock" || e["res"] == "stuck"
+			dead = e["res"] == "deadlock" || e["res"] == "stuck"
 			if dead {
 				// the pool's mutex may be held for good: no accessor call
 				e["idle"], e["total"], e["req"], e["open"], e["live"], e["gconn"], e["greq"] = []int{}, 0, 0, []int{}, []int{}, 0, 0
@@ -467,7 +490,7 @@ func runHist(b *binding, casesPath string, tr *vh.Trace, shard, shards int) {
 				break
 			}
 		}
-		w.end()
+		w.end(dead)
 		return nil
 	})
 	vh.Must(err, "cases")
@@ -604,7 +627,7 @@ func runStress(b *binding, tr *vh.Trace, rounds, workers int, seed int64) {
 		e["overlap"] = overlap
 		w.obs(e)
 		tr.Emit(e)
-		w.end()
+		w.end(nStuck > 0)
 	}
 }
 
